@@ -86,6 +86,9 @@ class CliFailures(Stream):
         elif k < 0.6:
             n = rng.choice(names)
             case["corrupt"] = [[n, v] for v in case["universe"][n]]
+        elif k < 0.72:
+            # unusable arguments: the command line must answer with a diagnostic and exit status 1
+            case["usage"] = rng.choice(["missing-find-links", "missing-source", "no-repository", "missing-input", "missing-constraints"])
         return case
 
     def impl(self, case):
@@ -100,6 +103,13 @@ class CliFailures(Stream):
             with open(os.path.join(d, "links", B.wheel_name(n, v)), "wb") as f:
                 f.write(b"PK\x03\x04 this is not a wheel")
         files = write_inputs(d, case["inputs"])
+        usage = case.get("usage")
+        if usage:
+            r = self._run_usage(d, files, usage)
+            shutil.rmtree(d, ignore_errors=True)
+            r["region"] = "usage:" + usage
+            r["mem_outcome"] = None
+            return r
         r = run_cli(d, files)
         shutil.rmtree(d, ignore_errors=True)
         # the same universe through the in-memory repository, for the region
@@ -107,6 +117,31 @@ class CliFailures(Stream):
         r["region"] = run.region()
         r["mem_outcome"] = run.outcome
         return r
+
+    @staticmethod
+    def _run_usage(d, files, usage):
+        import functools
+        import req_compile.cmdline as C
+        args = {"missing-find-links": list(files) + ["--no-index", "--find-links", "no-such-dir"],
+                "missing-source": list(files) + ["--no-index", "--source", "no-such-dir"],
+                "no-repository": list(files) + ["--no-index"],
+                "missing-input": ["no-such-file.txt", "--no-index", "--find-links", "links"],
+                "missing-constraints": list(files) + ["--no-index", "--find-links", "links", "-c", "no-such-constraints.txt"]}[usage]
+        out, err = io.StringIO(), io.StringIO()
+        old = os.getcwd()
+        os.chdir(d)
+        code, exc = 0, None
+        try:
+            with contextlib.redirect_stdout(out), contextlib.redirect_stderr(err):
+                try:
+                    C.compile_main(args)
+                except SystemExit as ex:
+                    code = ex.code if isinstance(ex.code, int) else 1
+                except BaseException as ex:
+                    code, exc = 1, type(ex).__name__
+        finally:
+            os.chdir(old)
+        return {"code": code, "exception": exc, "stdout": out.getvalue(), "stderr": err.getvalue()}
 
     def flags(self, case, r):
         fl = ["exit:%s" % r["code"], "region:" + r["region"]]
@@ -146,6 +181,12 @@ class CliFailures(Stream):
         fails = []
         if r["exception"]:
             return [("C09/cli-traceback-%s/%s" % (r["exception"], region), {"stderr": r["stderr"][-400:]})]
+        if region.startswith("usage:"):
+            if r["code"] != 1:
+                return [("C09/cli-exit-status-%s/%s" % (r["code"], region), {"stderr": r["stderr"][-300:]})]
+            if not r["stderr"].strip():
+                return [("C09/failure-without-diagnostic/" + region, {})]
+            return []
         if r["code"] == 0:
             return []
         if r["code"] != 1:
